@@ -5,6 +5,7 @@
 -/
 import Protobom.Proofs.Spdx
 import Protobom.Proofs.Cdx
+import Protobom.Proofs.Nest
 
 namespace Protobom.C03
 open Protobom Gen
@@ -107,5 +108,28 @@ theorem cdx_dependency_targets (ts : List String) (known : String → Bool) (hk 
         · exact Or.inl (Or.inl h)
         · exact Or.inl (Or.inr h)
         · exact Or.inr h
+
+/-! ### CycloneDX: no node is dropped from the component forest -/
+
+/-- on a containment forest with one root the serializer emits every node: the root as the metadata
+    component (`serCDX_forest`), and every other known node, with its complete subtree, inside the
+    complete subtree of a top-level component — the top-level components being exactly the nodes
+    that are neither the root nor contained in a non-root node. (Stated before `clearAutoRefs`
+    blanks generated references, which is done on purpose.) -/
+theorem cdx_every_node_emitted (children : String → List String) (c0 : String → Cdx.Component) (ht : String → Nat)
+    (D : String → Prop) (root : String) (F : Cdx.Forest children ht D [root]) (bound : Nat) (hb : ∀ x, ht x < bound)
+    (x : String) (hD : D x) (hx : x ≠ root) :
+    ∃ t, D t ∧ ¬ (t = root ∨ ∃ p, p ≠ root ∧ D p ∧ t ∈ children p) ∧
+      Cdx.Sub (Cdx.T children c0 ht x) (Cdx.T children c0 ht t) :=
+  Cdx.every_node_under_a_top children c0 ht D root F bound hb
+    (fun y => y = root ∨ ∃ p, p ≠ root ∧ D p ∧ y ∈ children p) (fun _ => Iff.rfl) bound x (by omega) hD hx
+
+/-- and containment is expressed as nesting: the component of a node has, as its nested
+    components, exactly the complete subtrees of the nodes it contains (in the order the first pass
+    recorded them) -/
+theorem cdx_containment_is_nesting (children : String → List String) (c0 : String → Cdx.Component) (ht : String → Nat)
+    (hlt : ∀ id t, t ∈ children id → ht t < ht id) (hk : ∀ x, (c0 x).kids = []) (x : String) :
+    (Cdx.T children c0 ht x).kids = (children x).map (Cdx.T children c0 ht) := by
+  rw [Cdx.T_unfold children c0 ht hlt x, Cdx.kids_withKids, hk x, List.nil_append]
 
 end Protobom.C03
